@@ -84,6 +84,8 @@ Inductive res :=
 | RErrRefused                        (* payload filter: ArgError before any channel is touched *)
 | RErrSendClosed                     (* Go panic "send on closed channel" -> Lua error *)
 | RErrCloseClosed                    (* Go panic "close of closed channel" -> Lua error *)
+| RErrLimit                          (* "registry overflow" / "stack overflow": no room for the results (or for the
+                                        handler call) in the calling state; raised before any channel is touched *)
 | RErrOther.                         (* any other error: never a result of the model *)
 
 Inductive action :=
@@ -95,7 +97,8 @@ Inductive action :=
 | ACloseErr (t : tid) (c : cid)
 | ASendClosed (t : tid) (c : cid) (v : value)
 | ARefused (t : tid)
-| ADefault (t : tid) (cs : list scase).
+| ADefault (t : tid) (cs : list scase)
+| ALimit (t : tid).                            (* reserveRegisters / the call-stack check of receive and select fail *)
 
 Definition chan_act (a : action) (ch : chan) : option chan :=
   match a with
@@ -113,6 +116,7 @@ Definition chan_act (a : action) (ch : chan) : option chan :=
   | ACloseErr _ _ => if closed ch then Some ch else None
   | ASendClosed _ _ _ => if closed ch then Some ch else None
   | ARefused _ => Some ch
+  | ALimit _ => Some ch
   | ADefault _ _ => Some ch
   end.
 
@@ -120,14 +124,14 @@ Definition act_cid (a : action) : option cid :=
   match a with
   | ASend _ c _ | ARecv _ c _ | ARdv _ _ c _ | ARecvClosed _ c | AClose _ c | ACloseErr _ c
   | ASendClosed _ c _ => Some c
-  | ARefused _ | ADefault _ _ => None
+  | ARefused _ | ALimit _ | ADefault _ _ => None
   end.
 
 (* the thread that performs the action (the sender for a hand-off) *)
 Definition act_tid (a : action) : tid :=
   match a with
   | ASend t _ _ | ARecv t _ _ | ARdv t _ _ _ | ARecvClosed t _ | AClose t _ | ACloseErr t _
-  | ASendClosed t _ _ | ARefused t | ADefault t _ => t
+  | ASendClosed t _ _ | ARefused t | ALimit t | ADefault t _ => t
   end.
 
 Fixpoint upd {A} (n : nat) (x : A) (l : list A) : list A :=
@@ -152,6 +156,7 @@ Definition case_ready (chs : list chan) (sc : scase) : bool :=
 Definition apply_act (chs : list chan) (a : action) : option (list chan) :=
   match a with
   | ARefused _ => Some chs
+  | ALimit _ => Some chs
   | ADefault _ cs => if forallb (fun sc => negb (case_ready chs sc)) cs then Some chs else None
   | _ =>
       match act_cid a with
@@ -201,11 +206,17 @@ Definition completes_plain (t : tid) (o : op) (a : action) : option res :=
   | _, _ => None
   end.
 
+(* channellib.go: channelReceive and channelSelect call reserveRegisters (room for the results, or
+   for the handler call and the results) and, with handlers, check the call stack BEFORE Recv /
+   reflect.Select: the catchable "registry overflow" / "stack overflow" they raise belongs to an
+   operation that has not touched any channel.  (In channelSelect the payload filter runs first:
+   an unsafe select is refused, never ALimit.)  send and close store nothing. *)
+Definition op_reserves (o : op) : bool :=
+  match o with ORecv _ | OSelect _ => true | _ => false end.
+
 (* `i` is the select case the action is performed for (ignored for plain operations) *)
-Definition completes (t : tid) (o : op) (a : action) (i : nat) : option res :=
-  if op_unsafe o then
-    match a with ARefused t' => if t =? t' then Some RErrRefused else None | _ => None end
-  else
+(* the operation takes effect on the channels (or is decided by them: default) *)
+Definition completes_safe (t : tid) (o : op) (a : action) (i : nat) : option res :=
     match o with
     | OSelect cs =>
         match nth_error cs i with
@@ -228,6 +239,15 @@ Definition completes (t : tid) (o : op) (a : action) (i : nat) : option res :=
         | None => None
         end
     | _ => completes_plain t o a
+    end.
+
+Definition completes (t : tid) (o : op) (a : action) (i : nat) : option res :=
+  if op_unsafe o then
+    match a with ARefused t' => if t =? t' then Some RErrRefused else None | _ => None end
+  else
+    match a with
+    | ALimit t' => if (t =? t') && op_reserves o then Some RErrLimit else None
+    | _ => completes_safe t o a i
     end.
 
 (* ---------- the LTS ---------- *)
@@ -260,6 +280,7 @@ Definition res_eqb (a b : res) : bool :=
   | RErrRefused, RErrRefused => true
   | RErrSendClosed, RErrSendClosed => true
   | RErrCloseClosed, RErrCloseClosed => true
+  | RErrLimit, RErrLimit => true
   | RErrOther, RErrOther => true
   | _, _ => false
   end.
@@ -406,14 +427,14 @@ Definition cands_for (s : state) (u : tid) (o : op) : list (action * nat * nat) 
   if op_unsafe o then [((ARefused u), O, O)] else
   match o with
   | OSend c v => cands_send s u c v O
-  | ORecv c => cands_recv s u c O
+  | ORecv c => cands_recv s u c O ++ [((ALimit u), O, O)]
   | OClose c => [((AClose u c), O, O); ((ACloseErr u c), O, O)]
   | OSelect cs =>
       flat_map (fun i => match nth_error cs i with
                          | Some (SSend c v) => cands_send s u c v i
                          | Some (SRecv c) => cands_recv s u c i
                          | Some SDefault => [((ADefault u cs), i, O)]
-                         | None => [] end) (seq 0 (length cs))
+                         | None => [] end) (seq 0 (length cs)) ++ [((ALimit u), O, O)]
   end.
 
 Definition candidates (s : state) : list (action * nat * nat) :=
